@@ -81,6 +81,10 @@ func check(s *sw.Sys) []seqx.Viol {
 			continue
 		}
 		R := c.Recv
+		// with merge-write, RTMP delivery lags the publisher: the clauses that reason about the
+		// delivery instant (a: latest headers at that instant, d: what counts as replay) do not
+		// apply; the order-based clauses (b, c, f) do
+		lagged := c.Kind == "rtmp" && s.Merge > 0
 		firstFrame := -1
 		firstVideo := -1
 		lastHdr := map[string]int{} // class -> index in P of the most recent header RECEIVED
@@ -102,6 +106,9 @@ func check(s *sw.Sys) []seqx.Viol {
 				continue
 			}
 			d := r.AtPub - 1 // message being broadcast when this frame was delivered
+			if firstFrame < 0 && lagged {
+				firstFrame = p
+			}
 			if firstFrame < 0 {
 				firstFrame = p
 				// (a) the latest headers published before that instant must already have been received
@@ -154,7 +161,7 @@ func check(s *sw.Sys) []seqx.Viol {
 			}
 		}
 		// (d) GOP replay: frames older than the message being broadcast at prologue time
-		if len(R) > 0 {
+		if len(R) > 0 && !lagged {
 			d0 := R[0].AtPub - 1
 			if d0 >= 0 && d0 < len(P) {
 				inc := P[d0].Inc
@@ -210,8 +217,9 @@ func check(s *sw.Sys) []seqx.Viol {
 				}
 			}
 		}
-		// (e) a stream without video never holds the consumer back
-		if !c.Left {
+		// (e) a stream without video never holds the consumer back (with merge-write the message may
+		// still sit in the merge buffer: C01 bounds that lag)
+		if !c.Left && !(c.Kind == "rtmp" && s.Merge > 0) {
 			hasVideoAtJoin := false
 			if c.JoinInc != 0 {
 				for i := 0; i < c.Join; i++ {
@@ -307,6 +315,9 @@ func configs(r *vk.Run) []sw.SysOpts {
 	add("gop1cap1", lean, true, "rtmp.gop_num", 1, "httpflv.gop_num", 1, "rtmp.single_gop_max_frame_num", 1, "httpflv.single_gop_max_frame_num", 1)
 	add("gop2cap2", lean, true, "rtmp.gop_num", 2, "httpflv.gop_num", 2, "rtmp.single_gop_max_frame_num", 2, "httpflv.single_gop_max_frame_num", 2)
 	add("nopub-start", av, false, "rtmp.gop_num", 1, "httpflv.gop_num", 1)
+	// merge-write: buffered residue of the previous GOP must not reach a joiner that waits for a key frame
+	add("gop0+merge", lean, true, "rtmp.merge_write_size", 130)
+	add("gop1+merge", lean, true, "rtmp.merge_write_size", 130, "rtmp.gop_num", 1, "httpflv.gop_num", 1)
 	// non-initial start states: a previous publisher has already filled (and wrapped) the GOP rings
 	hist := [][]string{
 		{"P:vsh", "P:key", "P:inter", "PubLeave", "PubArrive"},
